@@ -244,7 +244,7 @@ fn ret_ty(s: &FnSpec) -> String {
 fn ret_expr(s: &FnSpec, early: bool) -> String {
     if s.kind == Kind::Lifetime {
         // returns a borrowed argument or a static
-        return if let Some(i) = s.args.iter().position(|a| *a == ArgTy::Str) { format!("a{}", i) } else { "\"static\"".into() };
+        return if let Some(i) = s.args.iter().position(|a| *a == ArgTy::Str) { an(s, i) } else { "\"static\"".into() };
     }
     let tag = if early { 1000 } else { 0 };
     match s.ret {
@@ -269,9 +269,9 @@ fn render_body(s: &FnSpec, stmts: &[Stmt], out: &mut String, ind: usize, nfuncs_
                 let src = if s.args.is_empty() { format!("{}", b) } else {
                     let i = (*b as usize) % s.args.len();
                     if i == 0 && matches!(s.kind, Kind::Generic | Kind::ImplTrait) {
-                        "Into::<i64>::into(a0.clone())".to_string()
+                        format!("Into::<i64>::into({}.clone())", an(s, 0))
                     } else {
-                        as_i64(s.args[i], &format!("a{}", i))
+                        as_i64(s.args[i], &an(s, i))
                     }
                 };
                 let e = match a {
@@ -350,7 +350,7 @@ fn render_body(s: &FnSpec, stmts: &[Stmt], out: &mut String, ind: usize, nfuncs_
                 let muts: Vec<usize> = s.args.iter().enumerate().filter(|(_, a)| **a == ArgTy::MutI64).map(|(i, _)| i).collect();
                 if !muts.is_empty() {
                     let i = muts[(*k as usize) % muts.len()];
-                    let _ = writeln!(out, "{}*a{} = a{}.wrapping_add(acc).wrapping_mul(3);", pad, i, i);
+                    let _ = writeln!(out, "{}*{} = {}.wrapping_add(acc).wrapping_mul(3);", pad, an(s, i), an(s, i));
                 }
             }
             Stmt::Await(k) => {
@@ -362,6 +362,17 @@ fn render_body(s: &FnSpec, stmts: &[Stmt], out: &mut String, ind: usize, nfuncs_
                 let _ = writeln!(out, "{}}}", pad);
             }
         }
+    }
+}
+
+/// the name of parameter `i` of function `s`: in a quarter of the functions the names a user might
+/// well pick and that the macro's expansion could capture (`name`, `span`, `properties`, ...)
+fn an(s: &FnSpec, i: usize) -> String {
+    const PLAIN: [&str; 6] = ["name", "span", "properties", "fut", "guard", "short_name"];
+    if s.id % 4 == 1 && i < PLAIN.len() {
+        PLAIN[(i + s.id as usize / 4) % PLAIN.len()].to_string()
+    } else {
+        format!("a{}", i)
     }
 }
 
@@ -380,7 +391,7 @@ fn fmt_string(p: &Prop, s: &FnSpec) -> (String, bool) {
     if usable.is_empty() || p.form == 0 {
         return ("v-lit".into(), false);
     }
-    let a = format!("a{}", usable[(p.arg as usize) % usable.len()]);
+    let a = an(s, usable[(p.arg as usize) % usable.len()]);
     match p.form {
         1 => (format!("{{{}:?}}", a), true),
         2 => (format!("x={{{}:?}} end", a), true),
@@ -410,7 +421,7 @@ fn render_fn(s: &FnSpec, annotated: bool, before: &[FnSpec]) -> String {
             (Kind::ImplTrait, 0) if *a == ArgTy::I64 => "impl std::fmt::Debug + Clone + Into<i64>".to_string(),
             _ => ty(*a, lt),
         };
-        params.push(format!("a{}: {}", i, t));
+        params.push(format!("{}: {}", an(s, i), t));
     }
     let generics = match s.kind {
         Kind::Generic => "<T: std::fmt::Debug + Clone + Into<i64>>",
@@ -451,7 +462,7 @@ fn render_fn(s: &FnSpec, annotated: bool, before: &[FnSpec]) -> String {
         let _ = writeln!(out, "        let _ct = rt::CallTrace::enter({}, fastrace::func_path!());", s.id);
         let _ = writeln!(out, "        let mut acc: i64 = {} + warm;", s.id);
         for (i, a) in s.args.iter().enumerate() {
-            let _ = writeln!(out, "        acc = acc.wrapping_mul(31).wrapping_add({});", as_i64(*a, &format!("a{}", i)));
+            let _ = writeln!(out, "        acc = acc.wrapping_mul(31).wrapping_add({});", as_i64(*a, &an(s, i)));
         }
         let mut counter = 0u32;
         render_body(s, &s.body, &mut out, 2, before, &mut counter);
@@ -474,7 +485,7 @@ fn render_fn(s: &FnSpec, annotated: bool, before: &[FnSpec]) -> String {
         let _ = writeln!(out, "        Box::pin(async move {{");
         let _ = writeln!(out, "        let mut acc: i64 = {};", s.id);
         for (i, a) in s.args.iter().enumerate() {
-            let _ = writeln!(out, "        acc = acc.wrapping_mul(31).wrapping_add({});", as_i64(*a, &format!("a{}", i)));
+            let _ = writeln!(out, "        acc = acc.wrapping_mul(31).wrapping_add({});", as_i64(*a, &an(s, i)));
         }
         let mut counter = 0u32;
         render_body(s, &s.body, &mut out, 2, before, &mut counter);
@@ -493,8 +504,8 @@ fn render_fn(s: &FnSpec, annotated: bool, before: &[FnSpec]) -> String {
     let _ = writeln!(out, "        let mut acc: i64 = {};", s.id);
     for (i, a) in s.args.iter().enumerate() {
         let src = match (s.kind, i) {
-            (Kind::Generic, 0) | (Kind::ImplTrait, 0) if *a == ArgTy::I64 => format!("Into::<i64>::into(a{}.clone())", i),
-            _ => as_i64(*a, &format!("a{}", i)),
+            (Kind::Generic, 0) | (Kind::ImplTrait, 0) if *a == ArgTy::I64 => format!("Into::<i64>::into({}.clone())", an(s, i)),
+            _ => as_i64(*a, &an(s, i)),
         };
         let _ = writeln!(out, "        acc = acc.wrapping_mul(31).wrapping_add({});", src);
     }
@@ -518,7 +529,7 @@ fn render_module(specs: &[FnSpec], annotated: bool) -> String {
     let _ = writeln!(out, "#[allow(dead_code, non_snake_case)]\npub mod {} {{\n    use crate::rt;\n    pub struct S(pub i64);", name);
     let _ = writeln!(out, "    #[async_trait::async_trait]\n    pub trait Tr {{");
     for s in specs.iter().filter(|s| s.kind == Kind::AsyncTrait) {
-        let params: Vec<String> = std::iter::once("&self".to_string()).chain(s.args.iter().enumerate().map(|(i, a)| format!("a{}: {}", i, ty(*a, "")))).collect();
+        let params: Vec<String> = std::iter::once("&self".to_string()).chain(s.args.iter().enumerate().map(|(i, a)| format!("{}: {}", an(s, i), ty(*a, "")))).collect();
         let _ = writeln!(out, "        async fn f{}({}){};", s.id, params.join(", "), ret_ty(s));
     }
     let _ = writeln!(out, "    }}");
@@ -611,14 +622,14 @@ fn render_driver(s: &FnSpec) -> String {
     let _ = writeln!(out, "#[allow(unused_mut, unused_variables)]\npub fn props_f{}(inp: &rt::Inputs) -> Vec<(String, String)> {{", s.id);
     for (i, a) in s.args.iter().enumerate() {
         let e = match a {
-            ArgTy::I64 => format!("let a{} = inp.ints[{}];", i, i),
-            ArgTy::U8 => format!("let a{} = inp.ints[{}] as u8;", i, i),
-            ArgTy::Bool => format!("let a{} = inp.ints[{}] % 2 == 0;", i, i),
-            ArgTy::Str => format!("let a{} = inp.strs[{}].as_str();", i, i % 2),
-            ArgTy::RefI64 => format!("let a{} = &inp.ints[{}];", i, i),
-            ArgTy::MutI64 => format!("let mut m{} = inp.ints[{}]; let a{} = &mut m{};", i, i, i, i),
-            ArgTy::OptI64 => format!("let a{} = if inp.ints[{}] % 3 == 0 {{ None }} else {{ Some(inp.ints[{}]) }};", i, i, i),
-            ArgTy::Traced => format!("let a{} = rt::TracedDbg(inp.ints[{}]);", i, i),
+            ArgTy::I64 => format!("let {} = inp.ints[{}];", an(s, i), i),
+            ArgTy::U8 => format!("let {} = inp.ints[{}] as u8;", an(s, i), i),
+            ArgTy::Bool => format!("let {} = inp.ints[{}] % 2 == 0;", an(s, i), i),
+            ArgTy::Str => format!("let {} = inp.strs[{}].as_str();", an(s, i), i % 2),
+            ArgTy::RefI64 => format!("let {} = &inp.ints[{}];", an(s, i), i),
+            ArgTy::MutI64 => format!("let mut m{} = inp.ints[{}]; let {} = &mut m{};", i, i, an(s, i), i),
+            ArgTy::OptI64 => format!("let {} = if inp.ints[{}] % 3 == 0 {{ None }} else {{ Some(inp.ints[{}]) }};", an(s, i), i, i),
+            ArgTy::Traced => format!("let {} = rt::TracedDbg(inp.ints[{}]);", an(s, i), i),
         };
         let _ = writeln!(out, "    {}", e);
     }
